@@ -275,7 +275,7 @@ CLAIMED["C11"] = dict(
          "SERVER_HELLO. The loop model is a total function whose exception paths are explicit 'contained' branches. Tied to the real "
          "loop as in C10 with hostile streams (random bytes 0..2000, garbage bodies, truncated/complete strangers' hellos, block-listed "
          "sources, spoofed damaged/stale/re-typed copies of genuine datagrams) at MTU 512/1500; the monitor measures bytes in/out per "
-         "unpromoted address, block-list silence and loop liveness. Whole runs: C11_update_every_iteration / C11_loop_never_stalls - every iteration reaches handler.update exactly once and n iterations deliver n update events, whatever was queued and whatever the handler does. No amplification by the handshake, for every MTU and padding (as repaired, 8599f81): the hello handler queues its one SERVER_HELLO only when that reply is not longer than the hello it answers (C11_hello_reply_once, C11_short_hello_not_answered) - both travel in the same CRC form with the same framing, so the datagram sent is never larger than the one received; and (as repaired, 30a6fe7) a connection that has a session key ignores every further hello, so it answers one hello in its life (C11_one_hello_per_connection, C11_hello_keeps_key); over whole runs, in bytes (C11_no_amplification): the bytes of all datagrams handed to the socket for an address that is not promoted in the run never exceed the bytes of the datagrams queued from it, for every batch, handler behaviour, clock, MTU, AEAD and handshake externals; in datagrams (C11_unverified_budget) such an address is sent at most as many datagrams as it sent CLIENT_HELLO datagrams, each consisting of queued SERVER_HELLO messages only (C11_halfopen_sends_only_replies, C11_halfopen_receive); the same inequality is measured by the monitor on the real loop at MTU 1500, 512 and in the band 370..420, with peers that stack several hellos into one sealed datagram.",
+         "unpromoted address, block-list silence and loop liveness. Whole runs: C11_update_every_iteration / C11_loop_never_stalls - every iteration reaches handler.update exactly once and n iterations deliver n update events, whatever was queued and whatever the handler does. No amplification by the handshake, for every MTU and padding (as repaired, 8599f81): the hello handler queues its one SERVER_HELLO only when that reply is not longer than the hello it answers (C11_hello_reply_once, C11_short_hello_not_answered) - both travel in the same CRC form with the same framing, so the datagram sent is never larger than the one received; and (as repaired, 30a6fe7) a connection that has a session key ignores every further hello, so it answers one hello in its life (C11_one_hello_per_connection, C11_hello_keeps_key); over whole runs, in bytes (C11_no_amplification): the bytes of all datagrams handed to the socket for an address that is not promoted in the run never exceed the bytes of the datagrams queued from it, for every batch, handler behaviour, clock, MTU, AEAD and handshake externals; an address none of whose datagrams is queued - every block-listed one - is sent nothing at all (C11_unqueued_address_gets_nothing); in datagrams (C11_unverified_budget) such an address is sent at most as many datagrams as it sent CLIENT_HELLO datagrams, each consisting of queued SERVER_HELLO messages only (C11_halfopen_sends_only_replies, C11_halfopen_receive); the same inequality is measured by the monitor on the real loop at MTU 1500, 512 and in the band 370..420, with peers that stack several hellos into one sealed datagram.",
     note=TRUST + "exceptions from C extensions / OS errors / CPU exhaustion outside; the byte inequality of no-amplification rests on DER sizes "
          "and C14's fixed hello size - measured on every run, not a Lean theorem (partial).",
     design="§8 C11", technique="Lean 4 proof (entry gating, frame/isolation of the pools, structural no-amplification) + recorded differential of the real server loop")
